@@ -45,6 +45,31 @@ SEEDS = {
  "C19-b": ("C19", "optional_whitespace handles x-mode whitespace and (?#..) comments in two passes that run once each", "x mode + a comment followed by whitespace at the start of a group / alternative, after another comment, or before a quantifier", "missed (free-spacing and comment families were applied separately)", "family free-spacing+comment: separators that mix whitespace, line comments and (?#..) comments"),
  "C20-a": ("C20", "backtrack_cut merges undo records through a map whose insert overwrites (newest old value wins)", "a slot written in two in-group deltas, then a backtrack past the group", "caught at once (sequence model and program-level shadow)", ""),
  "C20-b": ("C20", "Save0 resets a repeat counter without an undo record", "a bounded repeat with a hard body inside an outer loop, re-entered while a branch of the first pass is alive", "caught at once; first runs exposed that a looping VM made the checks crawl", "step caps lowered, patterns abandoned after 2 cap hits, flood control and wall-clock budget"),
+ # ---- round 2: sub-agents were told the mechanisms above and asked for subtler, different ones (worktree at 532a688)
+ "C01-c": ("C01", "compile_repeat no longer ORs the repeat's own hardness into the flag it passes to its child", "a counted repeat that is the whole body of an atomic group / look-around, hard child ending in variable easy text, second iteration must make the first give back (7 elements)", "missed by C01 quick, caught by C03 quick", "contexts with a counted repeat as the whole body of a committing construct"),
+ "C01-d": ("C01", "all positive look-arounds share one Save/Restore slot", "two nested positive look-arounds evaluated at different offsets", "caught at once (C01, C03)", "contexts with look-arounds nested two and three deep added anyway"),
+ "C02-c": ("C02", "bounded repeat (hi != MAX) does not propagate hardness", "bounded repeat with hard body and easy variable tail as last element of an atomic group / look-around", "span differs, so C02 leaves it to C01; caught by C03 at once and by C01 after the context below", "context (?>(?:(?!c)(a|ab)){2})X and longer fixed texts"),
+ "C02-d": ("C02", "a self-referencing backreference on re-entry matches empty instead of failing", "`\\N` inside its own (open) group in a loop with text consumed between iterations", "NOT detected", "none: outside what the property quantifies over (references to groups closed earlier); no reference semantics exist for a reference into an open group, and the mutant neither panics nor reports invalid offsets"),
+ "C03-c": ("C03", "a group referenced only by a condition is no longer recorded in the parser's backrefs set, so it is not hard", "group condition without a real backreference + equal-width alternation where one branch captures", "missed (7 nodes)", "contexts (?:.|(X))(?(1)a|b) and (?>(X)*)(?(1)b|c)"),
+ "C03-d": ("C03", "RepeatNg saves its counter after pushing the branch, so optional iterations are never counted", "lazy bounded quantifier with lo < hi run by the VM and more than hi repetitions in the text (length >= 4)", "the looping VM made C03 run for two hours", "time budget polled per work item and inside the variant loop, variants abandoned after 2 step-cap hits; longer fixed texts (aaab, ...) in the text space"),
+ "C05-c": ("C05", "look-around position slots chosen by nesting depth mod 2", "three nested positive look-arounds, outermost a look-behind, search from an offset > 0", "caught after the three-deep context was added (C05, C01)", "context (?<=(?=(?=X)a).)b?"),
+ "C05-d": ("C05", "the lo > hi guard of a backreference moved to a new instruction that is only emitted for the innermost open group", "`\\1` inside group 2 inside group 1 inside a loop", "missed (7 nodes)", "contexts (?:((X|a)b)c)+ and (?:a((X)|))+"),
+ "C06-c": ("C06", "\\x{..} accepts nine hex digits; from_str_radix(..).unwrap() panics", "a braced hex escape with nine digits", "missed (no such token)", "tokens \\x{1 / 00000000 / FFFFFFFF / \\u{"),
+ "C06-d": ("C06", "small exact repeats are unrolled, nested ones multiply the program", "several levels of {2}/{3} around a VM-compiled body", "missed (far below the absolute allocation cap)", "scaling monitor: families of nested / repeated hard bodies, doubling the size may cost at most 4x"),
+ "C08-c": ("C08", "RepeatEpsilonNg guard `>` became `>=`: reads the check slot before it is written", "lazy unbounded loop with nullable body re-entered by an outer loop", "missed: every witness is in the F1 class, which was excluded", "bug-compatible expectation for F1 loops with hard bodies (validated on 395k patterns / 258M evaluations), so these patterns are now checked"),
+ "C08-d": ("C08", "byte/char confusion in a GoBack fast path", "look-behind >= 2 characters wide over multi-byte text with the right alignment", "caught at once (C08, C13)", ""),
+ "C09-c": ("C09", "is_match shortcut with a byte-length lower bound that miscounts case-insensitive literals", "(?i) + ſ / KELVIN SIGN / ẞ + a text shorter in bytes", "missed", "C09 leg with case-insensitive literals whose case fold has another UTF-8 length"),
+ "C09-d": ("C09", "find_iter stops after one match for patterns judged anchored; the test descends into look-behinds", "alternatives pinned to different offsets through `^` inside look-behinds", "missed (6 nodes)", "iteration contexts ^X|(?<=^X)[ab] and ^|(?<=^X)"),
+ "C12-c": ("C12", "all-digit reference ids are treated as indices before the name lookup", "a group with a digit-only name", "missed", "capture set with digit-only names"),
+ "C12-d": ("C12", "write_expansion calls write (may write short) instead of write_all", "a writer that takes fewer bytes than offered", "missed", "short writers (1 and 3 bytes per call)"),
+ "C13-c": ("C13", "conditional const_size test degenerates to 'else not longer than cond+yes'", "conditional with a consuming condition and shorter / missing else branch inside a look-behind", "missed (5 nodes, unrestricted E(4) did not contain it)", "look-behinds around conditionals added to the facts monitor's patterns"),
+ "C13-d": ("C13", "same mechanism as C01-d", "as C01-d", "caught (C13, C01)", ""),
+ "C15-c": ("C15", "same mechanism as C03-c (numbered condition read with parse_decimal)", "as C03-c", "missed, then caught with the new contexts", ""),
+ "C15-d": ("C15", "flags set in the yes-branch are restored before the no-branch", "inline flag directive in the yes-branch of a conditional with both branches", "not caught by C15 (its reference has no flags), caught by C19", "C19 pairs with flags across alternation / conditional branches"),
+ "C16-c": ("C16", "analysis visits the branches of a variable-size look-behind alternation twice, handing out group numbers twice", "look-behind + different-size alternation + capture group in a branch", "caught at once", ""),
+ "C16-d": ("C16", "capture_names pads only one unnamed group before a name", "a name preceded by two or more unnamed groups", "missed", "naming layouts 'only the last group' and 'every third group', rows of sibling / nested groups"),
+ "C20-c": ("C20", "Split skips pushing a duplicate branch; FailNegativeLookAround then pops an older alternative", "optional group ending in a negative look-around", "missed by C20 (caught by C01)", "hook: a failing negative look-around must leave exactly as many alternatives as existed when it was entered; context a(?:X|(?!b))?b"),
+ "C20-d": ("C20", "same mechanism as C01-c", "as C01-c", "not a state-restore defect; caught by C03 / C01", ""),
 }
 matrix = {}
 mp = os.path.join(ROOT, "seeded", "MATRIX.tsv")
@@ -60,7 +85,7 @@ for sid, (prop, mech, needs, first, strengthen) in SEEDS.items():
     det, inc = matrix.get(sid, ([], []))
     meta = {
       "id": sid, "breaks_property": prop, "mechanism": mech, "needs_to_manifest": needs,
-      "written_by": "independent sub-agent given only the property text and a scratch worktree of /repo at 47309b2",
+      "written_by": "independent sub-agent given only the property text and a scratch worktree of /repo at %s%s" % ("532a688" if sid[-1] in "cd" else "47309b2", " (second round: also told which mechanisms the first round had used and asked for subtler ones)" if sid[-1] in "cd" else ""),
       "confirmed": "tools/verify_seed.sh in the scratch worktree: demo.rs passes on the clean tree and fails with patch.diff; unedited suite 194/194 with the patch",
       "first_result_of_my_checks": first, "strengthening": strengthen,
       "quick_checks_reporting_a_violation_now": det, "quick_checks_inconclusive": inc,
